@@ -1450,7 +1450,7 @@ def truncate(S):
 
 @bounded(
     "B1.native_records_validate_against_access_log_schema",
-    bound="records produced by 14 native scenarios (pipe and HTTP: unary ok/error with empty, long, multi-line text; producer, exchange, cancel, failing turn, init failure, client vanishing, misbehaving init) validated with jsonschema against vgi_rpc/access_log.schema.json",
+    bound="records produced by 14 native scenarios, plus the shipped formatter applied to stream and unary records under caps 1 MiB / 2000 / 600 / 300 bytes (pipe and HTTP: unary ok/error with empty, long, multi-line text; producer, exchange, cancel, failing turn, init failure, client vanishing, misbehaving init) validated with jsonschema against vgi_rpc/access_log.schema.json",
     tiers=("quick", "thorough"),
 )
 def native_schema(tier, seed):
@@ -1493,4 +1493,22 @@ def native_schema(tier, seed):
     check("http init raising", native_http_stream("init_raises", "")["records"], 1, ["error"])
     check("http init returning a non-Stream", native_http_stream("junk")["records"], 1, ["error"])
     check("http init without the declared header", native_http_stream("nohdr")["records"], 1, ["error"])
+    # the shipped formatter sheds fields of an over-long record down to a sentinel: what it emits must still validate,
+    # for unary and for stream records (caps from generous to absurdly small)
+    import json as _json
+    import logging as _logging
+
+    from vgi_rpc.logging_utils import VgiAccessLogFormatter
+
+    for label, recs in (("http exchange", native_http_stream("exchange")["records"]), ("pipe unary error", native_unary("pipe", "E" * 300)["records"])):
+        for cap in (1 << 20, 2000, 600, 300):
+            for r in recs:
+                lr = _logging.LogRecord("vgi_rpc.access", _logging.INFO, __file__, 1, "%s", ("access",), None)
+                for k, v in dict(r, request_data="QUJD" * 200, claims={"k": "v" * 200}).items():
+                    setattr(lr, k, v)
+                out = _json.loads(VgiAccessLogFormatter(max_record_bytes=cap).format(lr))
+                n += 1
+                e2 = schema_errors(out)
+                if e2:
+                    failures.append(f"{label} formatted under max_record_bytes={cap} (truncated={out.get('truncated')!r}): {e2}")
     return BoundedResult(evaluations=n, failures=failures, detail=f"{n} native scenarios, every record validated with jsonschema")
